@@ -370,7 +370,7 @@ class DBOS(metaclass=_DBOSMeta):
         if ctx is None:
             raise RuntimeError("write_stream() must be called from within a workflow or step")
         if ctx.is_step():
-            inst.sysdb.stream_append(ctx.workflow_id, key, value, None)
+            inst.sysdb.stream_append(ctx.workflow_id, key, value, None, step_fid=ctx.step_fid)
             inst._changed()
             return
         ctx.function_id += 1
